@@ -169,6 +169,8 @@ impl<VM: VMBinding, B: Region> BlockPageResource<VM, B> {
     pub fn release_block(&self, block: B) {
         let pages = 1 << Self::LOG_PAGES;
         debug_assert!(pages as usize <= self.common().accounting.get_committed_pages());
+        #[cfg(mmtk_verif)]
+        crate::verif::verif_emit_release("block", block.start(), pages as usize);
         self.common().accounting.release(pages as _);
         self.block_queue.push(block)
     }
